@@ -31,16 +31,19 @@ Clauses and theorems
                                            `helpers_saturate`, `helpers_nonfinite`, `short_float_short_exact`,
                                            `int_float_int_exact`, `short_to_float_exact`
 * constants read from /repo               `generated_constants`
-* outside the contract (why the assumptions are needed)  `invalid_ratio_crashes`, `failed_create_then_reset_crashes`
+* outside the contract (why the assumptions are needed)  `invalid_ratio_crashes`
+* a failed create, then `src_reset`           `failed_create_then_reset_reports_error` (as repaired by /repo b5a678f, finding F40);
+                                           `failed_create_then_reset_crashed_historical`
 
 * no crash with a valid ratio              `no_crash_in_contract` (single call, any engine / callback behaviour)
 * its hypothesis is an invariant            `channels_invariant_process` (the former `Goal_channels_invariant`: every oracle, no side
-                                           hypothesis), `channels_invariant_read`, `channels_invariant_set_ratio`;
-                                           **not** kept by `src_reset`: `channels_invariant_reset_violated` (replayed on the real
-                                           code), `channels_invariant_reset_partial`; `live_invariant_step`
-* no crash, every sequence                 `no_crash_every_sequence` (from `src_new` / `src_callback_new`, any in-contract calls incl.
-                                           `src_reset`, no failing `resampler_create`), `no_crash_every_sequence_without_reset`
-                                           (every oracle, failing creates included, no `src_reset`)
+                                           hypothesis), `channels_invariant_read`, `channels_invariant_set_ratio`,
+                                           `wellformed_invariant_reset` (every entry point keeps `Wf`: channels set and not torn
+                                           down, or torn down and carrying the error), `wellformed_invariant_step`;
+                                           `channels_invariant_reset_violated_historical` (the pre-repair `soxr_clear`, F40)
+* no crash, every sequence                 `no_crash_every_sequence` — full strength: from `src_new` / `src_callback_new`, every
+                                           sequence of in-contract calls incl. `src_reset`, EVERY oracle (failing
+                                           `resampler_create` included); `channels_kept_without_failing_create`
 -/
 
 set_option exponentiation.threshold 4096
@@ -184,13 +187,13 @@ theorem reset_of_new_is_noop :
     flushing, then `soxr_set_io_ratio(p, old io_ratio, 0)` on the cleared object that keeps the old ratio" — a new
     converter that has already been given the old ratio. -/
 theorem reset_is_fresh_partial (o : Obj) (hr : o.cfg.reset = true) (hc : o.chans ≠ 0) (hz : isZero o.ioRatio = false)
-    (c : Ctx) :
+    (hd : o.dead = false) (c : Ctx) :
     soxrClear o c = M.bind (closeAll o) (fun _ =>
       setIoRatio { o with error := none, inited := false, flushing := false } o.ioRatio 0) c :=
-  reset_with_flag o hr hc hz c
+  reset_with_flag o hr hc hz hd c
 
 example : ({ fresh 4 1 false with cfg := ⟨true, false⟩, ioRatio := 0x3fe0000000000000 } : Obj).cfg.reset = true ∧
-    isZero 0x3fe0000000000000 = false := by decide +kernel
+    isZero 0x3fe0000000000000 = false ∧ (fresh 4 1 false).dead = false := by decide +kernel
 
 
 /-! ## NULL arguments -/
@@ -251,14 +254,25 @@ theorem invalid_ratio_crashes :
     srcProcess 3 (some (fresh 0 1 false)) (some ⟨0xBFF0000000000000, 10#64, 10#64, false, false, false⟩) ⟨[], []⟩ =
       .crash ⟨[], []⟩ := by decide +kernel
 
-/-- a failing `resampler_create` (here: `src_ratio = 0`, `io_ratio = inf`) leaves the zeroed object with the error;
-    `src_reset` drops the error; the next call crashes. -/
-theorem failed_create_then_reset_crashes :
+/-- a failing `resampler_create` (here: `src_ratio = 0`, `io_ratio = inf`) leaves the torn-down object with the error;
+    `src_reset` refuses it (`-1`, error kept); the next `src_process` reports the error with zero counts — no crash
+    (as repaired by /repo b5a678f; regression sequence `fixed-failed-create-reset` of the check, with `src_ratio = 2^-32`). -/
+theorem failed_create_then_reset_reports_error :
     let d0 : Data := ⟨0, 10#64, 10#64, false, false, false⟩
     let d1 : Data := ⟨0x3ff0000000000000, 10#64, 10#64, false, false, false⟩
     srcProcess 3 (some (fresh 0 1 false)) (some d0) ⟨[], [.c false]⟩ =
       .ok (some (deadObj .engine), ⟨-1, some 0, some 0⟩) ⟨[.close, .create 0x7ff0000000000000 false], []⟩ ∧
-    srcReset (some (deadObj .engine)) ⟨[], []⟩ = .ok (some { deadObj .engine with error := none }, 0) ⟨[], []⟩ ∧
+    srcReset (some (deadObj .engine)) ⟨[], []⟩ = .ok (some (deadObj .engine), -1) ⟨[], []⟩ ∧
+    srcProcess 3 (some (deadObj .engine)) (some d1) ⟨[], []⟩ = .ok (some (deadObj .engine), ⟨-1, some 0, some 0⟩) ⟨[], []⟩ ∧
+    srcCallbackRead 3 (some (deadObj .engine)) 0x3ff0000000000000 10#64 false ⟨[], []⟩ = .ok (some (deadObj .engine), 0) ⟨[], []⟩ := by
+  decide +kernel
+
+/-- HISTORICAL (finding F40, fixed by /repo b5a678f): with the pre-repair `soxr_clear`, `src_reset` dropped the error of the
+    torn-down object and the next call crashed.  Replayed on the real code before the repair (`src_ratio = 2^-32`:
+    `src_process` -1, `src_reset` 0, `src_error` 0, next `src_process` SIGSEGV), model and code agreeing op by op. -/
+theorem failed_create_then_reset_crashed_historical :
+    let d1 : Data := ⟨0x3ff0000000000000, 10#64, 10#64, false, false, false⟩
+    Historical.srcResetPre (some (deadObj .engine)) ⟨[], []⟩ = .ok (some { deadObj .engine with error := none }, 0) ⟨[], []⟩ ∧
     srcProcess 3 (some { deadObj .engine with error := none }) (some d1) ⟨[], []⟩ = .crash ⟨[], []⟩ := by decide +kernel
 
 /-- **No crash with a valid ratio**: `src_process` and `src_callback_read` cannot reach a crash site of the model for a
@@ -278,7 +292,8 @@ example : ((fresh 3 2 true).error = none → (fresh 3 2 true).chans ≠ 0) ∧ d
 
 Formerly `def Goal_channels_invariant : Prop := ∀ fuel o d c c' o' r, (o.error = none → o.chans ≠ 0) →
 srcProcess fuel (some o) (some d) c = .ok (some o', r) c' → (o'.error = none → o'.chans ≠ 0)` — now
-`channels_invariant_process`; the other entry points, the one that breaks it, and the lift to sequences follow.
+`channels_invariant_process`; the other entry points and the lift to sequences follow (`src_reset` broke it before /repo
+b5a678f: finding F40, kept as historical witness).
 `Inv o` is `o.error = none → o.chans ≠ 0`; `Live o` is `o.chans ≠ 0`; `NoFail toks`: the oracle has no failing
 `resampler_create` (`Lsr/Invariant.lean`). -/
 
@@ -308,56 +323,59 @@ theorem channels_invariant_set_ratio (o : Obj) (ratio : D) (c c' : Ctx) (o' : Ob
   obtain ⟨o2, e, i2, -⟩ := n2 _ _ _ h
   cases e; exact ⟨i2 hi, n1⟩
 
-/-- **`src_reset` does not keep it**: the zeroed object a failed `resampler_create` leaves satisfies the invariant (its
-    error is stored); `soxr_clear` drops the error and keeps the zero channel count — and the next `src_process` crashes
-    (`failed_create_then_reset_crashes`).  Replayed on the real code by the check (sequence `fixed-failed-create-reset`:
-    `src_ratio = 2^-32`, finite and positive, is refused by the engine; `src_process` returns -1, `src_reset` 0,
-    `src_error` 0, the next `src_process` dies of SIGSEGV), model and code agreeing op by op. -/
-theorem channels_invariant_reset_violated :
-    Inv (deadObj .engine) ∧
-    srcReset (some (deadObj .engine)) ⟨[], []⟩ = .ok (some { deadObj .engine with error := none }, 0) ⟨[], []⟩ ∧
-    ¬ Inv { deadObj .engine with error := none } := reset_breaks_inv
-
-/-- what `src_reset` does keep: never a crash; from an object that has its channel count the result satisfies the
-    invariant (every oracle) and still has its channel count when no `resampler_create` fails. -/
-theorem channels_invariant_reset_partial (o : Obj) (c c' : Ctx) (o' : Obj) (rc : Int)
+/-- **`src_reset` keeps the object well-formed** (every oracle): `Wf o` — channels set and not torn down, or torn down by
+    `fatal_error` and carrying the error — implies the hypothesis of `no_crash_in_contract`, and `src_reset` never crashes
+    and returns a `Wf` object: a torn-down one is refused and keeps its error (/repo b5a678f), any other is cleared. -/
+theorem wellformed_invariant_reset (o : Obj) (c c' : Ctx) (o' : Obj) (rc : Int) (hw : Wf o)
     (h : srcReset (some o) c = .ok (some o', rc) c') :
-    (Live o → Inv o') ∧ (NoFail c.toks → Live o → Live o') ∧ ∀ c'', srcReset (some o) c ≠ .crash c'' := by
+    Wf o' ∧ (o'.error = none → o'.chans ≠ 0) ∧ (NoFail c.toks → Live o → Live o') ∧
+    ∀ c'', srcReset (some o) c ≠ .crash c'' := by
   obtain ⟨n1, n2⟩ := srcReset_step o c
-  obtain ⟨o2, e, i2, l2⟩ := n2 _ _ _ h
-  cases e; exact ⟨i2, l2, n1⟩
+  obtain ⟨o2, e, w2, l2⟩ := n2 _ _ _ h
+  cases e; exact ⟨w2 hw, (w2 hw).inv, l2, n1⟩
 
-example : Live (fresh 2 1 false) ∧ NoFail [.c true, .g 5] :=
-  ⟨by unfold Live; decide, by unfold NoFail; decide⟩
+example : Wf (deadObj .engine) ∧ Wf (fresh 2 1 false) ∧ NoFail [.c true, .g 5] :=
+  ⟨Or.inr ⟨rfl, fun h => by cases h⟩, Or.inl ⟨by decide, rfl⟩, by unfold NoFail; decide⟩
 
-/-- one in-contract call of any kind (with its own oracle, as the driver runs it) from an object satisfying the
-    invariant: no crash; the invariant is kept unless the call is `src_reset`; the channel count is kept when no
-    `resampler_create` fails. -/
-theorem live_invariant_step (fuel : Nat) (o : Obj) (op : Op) (toks : List Tok) (hc : op.inContract) (hi : Inv o) :
+/-- HISTORICAL (finding F40): the pre-repair `src_reset` did not keep the invariant. -/
+theorem channels_invariant_reset_violated_historical :
+    Inv (deadObj .engine) ∧
+    Historical.srcResetPre (some (deadObj .engine)) ⟨[], []⟩ = .ok (some { deadObj .engine with error := none }, 0) ⟨[], []⟩ ∧
+    ¬ Inv { deadObj .engine with error := none } := Historical.reset_breaks_inv
+
+/-- one in-contract call of any kind (with its own oracle, as the driver runs it) from a well-formed object, **every
+    oracle**: no crash, the result is well-formed; the channel count is kept when no `resampler_create` fails. -/
+theorem wellformed_invariant_step (fuel : Nat) (o : Obj) (op : Op) (toks : List Tok) (hc : op.inContract) (hw : Wf o) :
     stepOp fuel o op toks ≠ .crash ∧
-    (∀ o', stepOp fuel o op toks = .ok o' →
-      (op.isReset = false → Inv o') ∧ (NoFail toks → Live o → Live o')) := stepOp_spec fuel o op toks hc hi
+    (∀ o', stepOp fuel o op toks = .ok o' → Wf o' ∧ (NoFail toks → Live o → Live o')) := stepOp_spec fuel o op toks hc hw
 
-/-- **No crash, every sequence**: from the object `src_new` / `src_callback_new` returns (any converter id, any positive
-    channel count), through every sequence of in-contract calls — `src_process` / `src_callback_read` with a valid ratio and
-    any sizes, buffers, `end_of_input`; `src_set_ratio` with any ratio; `src_reset`; `src_error` — with any engine and
-    callback answers, as long as no `resampler_create` fails: no call crashes.  (`no_crash_in_contract` without its
-    hypothesis.) -/
+/-- **No crash, every sequence — full strength**: from the object `src_new` / `src_callback_new` returns (any converter
+    id, any positive channel count), through every sequence of in-contract calls — `src_process` / `src_callback_read` with
+    a valid ratio and any sizes, buffers, `end_of_input`; `src_set_ratio` with any ratio; `src_reset`; `src_error` — for
+    **every** oracle: whatever the engine and the callback answer and wherever `resampler_create` fails, no call crashes,
+    and the object stays well-formed.  (`no_crash_in_contract` without its hypothesis.) -/
 theorem no_crash_every_sequence (fuel id chans : Nat) (fn : Bool) (hch : chans ≠ 0) (ops : List (Op × List Tok))
-    (hops : ∀ x ∈ ops, x.1.inContract ∧ NoFail x.2) : runOps fuel (fresh id chans fn) ops ≠ .crash :=
-  runOps_no_crash_live fuel (fresh id chans fn) hch ops hops
+    (hops : ∀ x ∈ ops, x.1.inContract) :
+    runOps fuel (fresh id chans fn) ops ≠ .crash ∧ ∀ o', runOps fuel (fresh id chans fn) ops = .ok o' → Wf o' :=
+  runOps_no_crash fuel (fresh id chans fn) (fresh_wf id chans fn hch) ops hops
 
-/-- the same for **every** oracle — `resampler_create` may fail at any point — when the sequence has no `src_reset`. -/
-theorem no_crash_every_sequence_without_reset (fuel id chans : Nat) (fn : Bool) (hch : chans ≠ 0)
-    (ops : List (Op × List Tok)) (hops : ∀ x ∈ ops, x.1.inContract ∧ x.1.isReset = false) :
-    runOps fuel (fresh id chans fn) ops ≠ .crash :=
-  runOps_no_crash_no_reset fuel (fresh id chans fn) (fun _ => hch) ops hops
+/-- when moreover no `resampler_create` fails, the converter is never torn down: it keeps its channel count. -/
+theorem channels_kept_without_failing_create (fuel id chans : Nat) (fn : Bool) (hch : chans ≠ 0)
+    (ops : List (Op × List Tok)) (hops : ∀ x ∈ ops, x.1.inContract ∧ NoFail x.2) (o' : Obj)
+    (h : runOps fuel (fresh id chans fn) ops = .ok o') : o'.chans ≠ 0 :=
+  runOps_live fuel (fresh id chans fn) (fresh_wf id chans fn hch) hch ops hops o' h
 
-/-- a sequence that runs: new converter 4, process (engine created, 100 in, 200 out), reset, read-style process again. -/
+/-- a sequence that runs: new converter 4, process (engine created, 100 in, 200 out), reset, set ratio, error. -/
 example : runOps 3 (fresh 4 1 false)
     [(.process ⟨0x4000000000000000, 100#64, 300#64, true, false, false⟩, [.c true, .g 200]), (.reset, []),
      (.setRatio 0x3ff0000000000000, [.c true]), (.error, [])] =
     .ok { fresh 4 1 false with ioRatio := 0x3ff0000000000000, inited := true } := by decide +kernel
+
+/-- and one in which `resampler_create` fails: the error is reported, `src_reset` is refused, later calls report the error. -/
+example : runOps 3 (fresh 0 1 false)
+    [(.process ⟨0x3df0000000000000, 10#64, 10#64, false, false, false⟩, [.c false]), (.reset, []),
+     (.process ⟨0x3ff0000000000000, 10#64, 10#64, false, false, false⟩, []), (.read 0x3ff0000000000000 5#64 false, [])] =
+    .ok (deadObj .engine) := by decide +kernel
 
 /-! ## the array helpers -/
 
